@@ -121,6 +121,14 @@ def fd_steps():
                         fails.add("retry-after-delay", dict(w, now=now, s1f13_sent=len(new13)), "after the delay the attempt must be retried: WAIT_CRA and exactly one new S1F13")
                     elif not [t for t in timers() if t.function.__name__ == "_on_wait_cra_timeout"]:
                         fails.add("reply-timer-armed", dict(w), "no reply timer running in WAIT_CRA after the retry")
+                # timers: exactly the timer of the current state is running (a timer that survives its state fires into a later
+                # attempt and shortens its delay / reply time)
+                live = sorted(t.function.__name__ for t in H.VirtualTimer.registry
+                              if t.is_alive() and t.function.__name__ in ("_on_wait_cra_timeout", "_on_wait_comm_delay_timeout"))
+                want_live = {"WAIT_CRA": ["_on_wait_cra_timeout"], "WAIT_DELAY": ["_on_wait_comm_delay_timeout"]}.get(now, [])
+                if live != want_live:
+                    fails.add("only-the-current-states-timer-runs", dict(w, now=now, running=live, expected=want_live),
+                              "after the step a reply / delay timer of a state that was left is still running (or the current state's timer is not)")
                 # clause 3
                 if ev == "reselect" and (now != "WAIT_CRA" or len(new13) != 1):
                     fails.add("selected-link-starts-attempt", dict(w, now=now, s1f13_sent=len(new13)), "link selected while NOT_COMMUNICATING must lead to WAIT_CRA and one S1F13")
@@ -150,7 +158,7 @@ def fd_steps():
     for f in fails:
         by.setdefault(f["obligation"], f)
     names = ["communicating-only-after-commack-0", "commack-0-establishes", "refused-or-unanswered-goes-to-wait-delay", "delay-timer-armed", "retry-after-delay",
-             "reply-timer-armed", "selected-link-starts-attempt", "s1f13-body", "link-loss-or-disable-leaves-communicating", "no-callbacks-unless-communicating",
+             "reply-timer-armed", "only-the-current-states-timer-runs", "selected-link-starts-attempt", "s1f13-body", "link-loss-or-disable-leaves-communicating", "no-callbacks-unless-communicating",
              "callbacks-when-communicating", "s1f13-answered-once", "setup"]
     obs = [{"name": n, "ok": n not in by, "witness": by[n]["witness"] if n in by else None, "detail": by[n]["detail"] if n in by else ""} for n in names]
     return {"obligations": obs, "domain": "2 roles x 4 communication states x 10 events (S1F14 ack 0/1, S1F13 accepted/denied, other primaries, T3 expiry, delay expiry, link lost, disable, select)",
